@@ -11,6 +11,7 @@ import FxVerif.Proofs.C14InvS
 import FxVerif.Proofs.C14InvI
 import FxVerif.Proofs.C14InvG
 import FxVerif.Proofs.C14Gen
+import FxVerif.Proofs.C14Prog
 import FxVerif.Proofs.C14InvK
 /-!
 # C14 — account migration moves everything, once, to the address that authorised it
@@ -183,10 +184,42 @@ theorem handlerValidate_code (s : State) (frm to : Addr) :
     rfl
 
 
+/-- the statement lists of `DistrStakingMigrate.Execute` as read from the source (`Gen.C14.executeProgram`), parsed per
+loop: the delegation loop reads the starting info, deletes it, sets it under the target, deletes the record, sets it
+(relabelled) under the target, deletes and sets the delegations-by-validator index element; the unbonding / redelegation
+loops re-key the record and its one / two by-validator index elements and, per entry, re-point the unbonding-id index and
+rewrite the time slice -/
+theorem execute_program_from_code :
+    progOf Gen.C14.executeProgram "del" = delProg ∧
+    progOf Gen.C14.executeProgram "ubd" = ubdProg ∧ progOf Gen.C14.executeProgram "ubd.entry" = entryProg ∧
+    progOf Gen.C14.executeProgram "red" = redProg ∧ progOf Gen.C14.executeProgram "red.entry" = entryProg ∧
+    (Gen.C14.executeProgram.map parseX).all (· != .unknown) = true := by decide
+
+/-- **`DistrStakingMigrate.Execute` as regenerated program = the hand-written reading**: interpreting the store statements
+of the three iterator loops and the two entry loops (regenerated from the source on every run, every statement recognised)
+gives, for every state and pair, exactly `stakingExecute` — the function `portfolio_moved_*`, `queues_rewritten_*`, the
+invariants and the simulation are about.  The driver runs the interpretation: a dropped, added or re-ordered `Delete` /
+`Set`, a wrong key constructor or argument order, a record no longer relabelled, stops this from checking while the driver
+follows the code. -/
+theorem execute_program_as_modelled (s : State) (frm to : Addr) :
+    stakingExecuteP cfg Gen.C14.executeProgram s frm to = stakingExecute cfg s frm to := by
+  obtain ⟨e1, e2, e3, e4, e5, _⟩ := execute_program_from_code
+  have c1 : cfg.rewriteDelIdx = true := by rw [cfg_from_code]
+  have c2 : cfg.rewriteUnbId = true := by rw [cfg_from_code]
+  have c3 : cfg.qEveryEntry = true := by rw [cfg_from_code]
+  have f1 : moveDelegationP delProg frm to = moveDelegation cfg frm to := by
+    funext s p; exact moveDelegationP_eq cfg c1 frm to s p
+  have f2 : moveUbdP cfg ubdProg entryProg frm to = moveUbd cfg frm to := by
+    funext s p; exact moveUbdP_eq cfg c2 c3 frm to s p
+  have f3 : moveRedP cfg redProg entryProg frm to = moveRed cfg frm to := by
+    funext s p; exact moveRedP_eq cfg c2 c3 frm to s p
+  unfold stakingExecuteP stakingExecute
+  rw [e1, e2, e3, e4, e5, f1, f2, f3]
+
 theorem handlerExecute_code (c : Cfg) (s : State) (frm to : Addr) :
     handlerExecute c frm to s "NewBankMigrate" =
       (if bankBlocked c s frm then .error .exec else .ok (bankExecute c s frm to)) ∧
-    handlerExecute c frm to s "NewDistrStakingMigrate" = .ok (stakingExecute c s frm to) ∧
+    handlerExecute c frm to s "NewDistrStakingMigrate" = .ok (stakingExecuteP c Gen.C14.executeProgram s frm to) ∧
     handlerExecute c frm to s "NewGovMigrate" = .ok s := by
   have t1 : handlerType "NewBankMigrate" = "BankMigrate" := by decide
   have t2 : handlerType "NewDistrStakingMigrate" = "DistrStakingMigrate" := by decide
@@ -232,7 +265,8 @@ theorem handler_program_as_modelled (s : State) (frm to : Addr) (sigOk : Bool) :
   simp only [runStmts, handlerStmt, q1, q2, q3, q4, q5, q6, q7, q8, q9, q10, q11, q12, q13, q14, q15,
     beq_self_eq_true, Bool.false_eq_true, ↓reduceIte, List.findSome?, execAll,
     (handlerValidate_code _ frm to).1, (handlerValidate_code _ frm to).2.1, (handlerValidate_code _ frm to).2.2,
-    (handlerExecute_code cfg _ frm to).1, (handlerExecute_code cfg _ frm to).2.1, (handlerExecute_code cfg _ frm to).2.2]
+    (handlerExecute_code cfg _ frm to).1, (handlerExecute_code cfg _ frm to).2.1, (handlerExecute_code cfg _ frm to).2.2,
+    execute_program_as_modelled]
   by_cases h1 : recGuard cfg.recKeyFrom s frm = true
   · simp [h1]
   by_cases h2 : recGuard cfg.recKeyTo s to = true
